@@ -35,13 +35,20 @@ def classify_c01(h, st, b, bad, known):
     elif garbage:
         rest += [(k, n, t) for k, n, t in bad if n in garbage]
     # restat pruning against unloaded recorded deps
-    rest2 = []
+    rest2 = []; pruned = set()
     for k, n, t in rest:
         e = prod.get(n)
         if e is not None and e.hidden and e.out0 not in b.started and any(pe.out0 in b.started and g.eff_restat(pe) for pe in g.edges) \
            and 'restat-prune-ignores-recorded-deps' in known:
             kn.append('id=restat-prune-ignores-recorded-deps %s (deps/depfile edge) was pruned after a restat edge although a recorded dependency is newer' % n)
+            pruned.add(n)
         else: rest2.append((k, n, t))
+    # a statement that did run but read the stale output of a wrongly pruned one is the same failure downstream
+    def reads_pruned(n, seen=()):
+        e = prod.get(n)
+        if e is None or n in seen: return False
+        return any(r in pruned or reads_pruned(r, seen + (n,)) for r in e.reads())
+    if pruned: rest2 = [(k, n, t) for k, n, t in rest2 if not reads_pruned(n)]
     return rest2, kn
 
 def classify_c02(h, st, b, known):
